@@ -661,6 +661,10 @@ func c04Iteration(c *Ctx, impls []*types.Named, rule string) {
 					if skip != nil && skip(cd.Term) {
 						continue
 					}
+					// "is the buffer sorted already?" in front of the sort is part of sorting, not of the walk
+					if cd.Term.Op == "call" && (cd.Term.Sym == "sort.IntsAreSorted" || cd.Term.Sym == "slices.IsSorted") {
+						continue
+					}
 					s := normTwin(cd.Term.Key())
 					if !cd.Taken {
 						s = "!" + s
